@@ -176,20 +176,67 @@ def _gen_get_input(w, rng):
 Adapter("get_input", "neighbors", "neighbors.voropp_neighbors.get_input", gen=_gen_get_input, faultable=False)
 
 
+def _voro_ok(t):
+    return _freud_ok(t) and t["ndim"] == 3 and not t.get("huge")
+
+
+def _gen_voro(walls):
+    def gen(w, rng):
+        from worlds.c18 import VOR_PREFIXES
+        s = pick_base(w, rng, _voro_ok)
+        if s is None:
+            return None
+        t = w.pool[s].tag
+        args = {"snapshots": ref(s), "radii": ref(comp(w, s, ".radii")), "outputfile": rng.choice(VOR_PREFIXES)}
+        if walls:
+            args["ppp"] = rng.choice(["-px", "-py", "-pz", "-px -py", "-py -pz", ""])
+        else:
+            args["ppp"] = "-p"
+            maybe_default(w, rng, args, "ppp")
+        maybe_default(w, rng, args, "radii", ok=t["K"] <= 2)
+        return {"args": args}
+    return gen
+
+
+def _voro_outputs(w, op):
+    a = op["args"]
+    s = a["snapshots"]["$"]
+    t = w.pool[s].tag
+    pre = a["outputfile"]
+    try:
+        lo, hi, nfr = nl_meta(pre + ".neighbor.dat", t["N"])
+    except (ValueError, FileNotFoundError, IndexError):
+        return []
+    base = {"snaps": t["bundle"], "mincn": lo, "maxcn": hi, "frames": nfr, "N": t["N"]}
+    return [(pre + ".neighbor.dat", dict(base, kind="nl", nlkind="vor", weights=pre + ".facearea.dat")),
+            (pre + ".facearea.dat", dict(base, kind="weights", of=pre + ".neighbor.dat")),
+            (pre + ".voroindex.dat", {"kind": "voroindex", "snaps": t["bundle"]})]
+
+
+# voro++ itself is a stub peer (simkit/peers.py); the library code around it runs as shipped
+Adapter("cal_voro", "neighbors", "neighbors.voropp_neighbors.cal_voro", gen=_gen_voro(False), outputs=_voro_outputs, weight=0.8)
+Adapter("voronowalls", "neighbors", "neighbors.voropp_neighbors.voronowalls", gen=_gen_voro(True), outputs=_voro_outputs, weight=0.8)
+
+
 def _gen_indicehis(w, rng):
+    made = sorted(p for p, f in w.files.items() if f["kind"] == "voroindex")
+    if made and rng.random() < 0.6:
+        p = rng.choice(made)          # the index file cal_voro / voronowalls wrote
+        return {"args": {"inputfile": p, "outputfile": rng.choice(["indices_a.dat", None])}, "reads": {p: w.files[p]["src"]}}
     return {"args": {"seed": rng.randrange(1 << 30), "n": rng.randint(3, 20), "inputfile": "stub.voroindex.dat",
                      "outputfile": rng.choice(["indices_a.dat", None])}}
 
 
 def _call_indicehis(w, op, kw):
-    # stub peer: a voro++-style index file, written outside the simulated disk
     from PyMatterSim.neighbors.voropp_neighbors import indicehis
-    rng = np.random.default_rng(kw["seed"])
-    with simio.real_open(kw["inputfile"], "w", encoding="utf-8") as f:
-        f.write("id   voro_index   0_to_7_faces\n")
-        for i in range(kw["n"]):
-            idx = rng.integers(0, 4, size=8)
-            f.write(f"{i + 1} " + " ".join(str(int(x)) for x in idx) + "\n")
+    if "seed" in kw:
+        # stub peer: a voro++-style index file, written outside the simulated disk
+        rng = np.random.default_rng(kw["seed"])
+        with simio.real_open(kw["inputfile"], "w", encoding="utf-8") as f:
+            f.write("id   voro_index   0_to_7_faces\n")
+            for i in range(kw["n"]):
+                idx = rng.integers(0, 4, size=8)
+                f.write(f"{i + 1} " + " ".join(str(int(x)) for x in idx) + "\n")
     return indicehis(kw["inputfile"], kw["outputfile"]) if kw["outputfile"] else indicehis(kw["inputfile"])
 
 
